@@ -13,6 +13,7 @@ import (
 	"github.com/XiXi-2024/xixi-kv/vsim/vclock"
 	"github.com/XiXi-2024/xixi-kv/vsim/vos"
 	"github.com/XiXi-2024/xixi-kv/vsim/vrt"
+	"github.com/XiXi-2024/xixi-kv/vsim/vsync"
 )
 
 // judgedOps says, per property, which step kinds the property judges in the sequential runner. Misbehaviour of
@@ -453,18 +454,32 @@ func (r *Runner) doRestart(op *Op) {
 			r.inc("restart_file_end_on_boundary")
 		}
 	}
-	r.judging = r.judges("close") || r.C.Prop == "C13"
-	if r.C.Prop == "C02" {
+	if op.K == "kill" {
+		// the process dies between two operations: no Close, no flush, no truncation of pre-extended mapped files;
+		// descriptors and mappings vanish, the page cache (and so the files) keeps every store. The history then
+		// continues on the recovered database - every acknowledged mutation must be there (C03's promise for a
+		// process crash), so the reference model carries on unchanged and the property's own oracles keep judging.
+		r.FS.Mark(-5)
+		r.FS.CloseAll()
+		r.DB = nil
+		vsync.ResetPools()
+		r.inc("fault_process_killed_between_operations")
+		old = false // what the recovery itself gets wrong is C03's business: the run is abandoned, not judged
 		r.judging = false
-	}
-	okc := r.closeDB()
-	r.judging = old
-	if !okc {
-		return
-	}
-	r.afterClose()
-	if r.violated() {
-		return
+	} else {
+		r.judging = r.judges("close") || r.C.Prop == "C13"
+		if r.C.Prop == "C02" {
+			r.judging = false
+		}
+		okc := r.closeDB()
+		r.judging = old
+		if !okc {
+			return
+		}
+		r.afterClose()
+		if r.violated() {
+			return
+		}
 	}
 	if op.Cfg != nil {
 		if *op.Cfg != r.Cfg {
@@ -488,6 +503,9 @@ func (r *Runner) doRestart(op *Op) {
 		return
 	}
 	r.note("restart -> %d keys", len(post.Keys))
+	if op.K == "kill" {
+		r.judging = r.judges("restart")
+	}
 	if pending {
 		r.afterAdoptingRestart()
 		r.extra["mergePending"] = false
@@ -923,7 +941,7 @@ func (r *Runner) dispatch(i int, op *Op) {
 		r.doFold(op)
 	case "stat":
 		r.doStat()
-	case "restart":
+	case "restart", "kill":
 		r.doRestart(op)
 	case "batch":
 		r.doBatch(i, op)
